@@ -44,6 +44,67 @@ Proof.
   pose proof (bitlen_gt x Hx). unfold x in *. lia.
 Qed.
 
+(* multiply-shift division: exact for every h < 2^n under the row criterion *)
+Lemma mulshift_div_exact p r s n h :
+  0 < p -> 0 <= n -> 0 <= s ->
+  0 <= r * p - 2 ^ s ->
+  (r * p - 2 ^ s) * 2 ^ n <= 2 * 2 ^ s ->
+  ((2 ^ n / p) * p - 1) * (r * p - 2 ^ s) < 2 ^ s ->
+  0 <= h < 2 ^ n ->
+  (h * r) / 2 ^ s = h / p.
+Proof.
+  intros Hp Hn Hs He0 He1 He2 Hh.
+  set (e := r * p - 2 ^ s) in *.
+  assert (P2s : 0 < 2 ^ s) by (apply Z.pow_pos_nonneg; lia).
+  assert (P2n : 0 < 2 ^ n) by (apply Z.pow_pos_nonneg; lia).
+  pose proof (Z.div_mod h p ltac:(lia)) as DM. pose proof (Z.mod_pos_bound h p Hp) as MB.
+  set (q := h / p) in *. set (t := h mod p) in *.
+  assert (RP : r * p = 2 ^ s + e) by (unfold e; lia).
+  symmetry. apply Z.div_unique with (r := h * r - q * 2 ^ s); [|ring].
+  left. split.
+  - (* q * 2^s <= h * r  <=  q * 2^s * p <= h * r * p *)
+    assert (q * 2 ^ s * p <= h * r * p).
+    { replace (h * r * p) with (h * (r * p)) by ring. rewrite RP. nia. }
+    nia.
+  - (* h * r - q * 2^s < 2^s  <=  h*r*p < (q+1) * 2^s * p *)
+    assert (HE : h * e < (p - t) * 2 ^ s).
+    { destruct (Z_le_gt_dec 2 (p - t)) as [G|G].
+      - assert (A1 : 2 * 2 ^ s <= (p - t) * 2 ^ s) by (apply Z.mul_le_mono_nonneg_r; lia).
+        destruct (Z.eq_dec e 0) as [E0|E0].
+        + rewrite E0, Z.mul_0_r. nia.
+        + assert (A2 : h * e < 2 ^ n * e) by (apply Z.mul_lt_mono_pos_r; lia). lia.
+      - assert (t = p - 1) by lia.
+        assert (Q : (q + 1) * p <= 2 ^ n) by nia.
+        assert (q + 1 <= 2 ^ n / p) by (apply Z.div_le_lower_bound; lia).
+        assert (h <= (2 ^ n / p) * p - 1) by nia.
+        assert (h * e <= ((2 ^ n / p) * p - 1) * e) by nia.
+        nia. }
+    assert (h * r * p < (q + 1) * 2 ^ s * p).
+    { replace (h * r * p) with (h * (r * p)) by ring. rewrite RP. nia. }
+    nia.
+Qed.
+
+Lemma calc_mod32_correct p r s h :
+  rcp_row_exact (p, r, s) = true -> 0 <= h < 2 ^ 32 -> calc_mod32 p r s h = h mod p.
+Proof.
+  intros C Hh. unfold rcp_row_exact in C.
+  repeat (apply andb_prop in C; destruct C as [C ?]).
+  repeat match goal with
+         | H : (_ <? _) = true |- _ => apply Z.ltb_lt in H
+         | H : (_ <=? _) = true |- _ => apply Z.leb_le in H
+         end.
+  assert (D : (h * r) / 2 ^ s = h / p) by (apply (mulshift_div_exact p r s 32 h); auto; lia).
+  unfold calc_mod32.
+  assert (P32 : 2 ^ 32 * 2 ^ 32 = 2 ^ 64) by reflexivity.
+  rewrite (Z.mod_small (h * r) (2 ^ 64)) by nia.
+  rewrite D.
+  pose proof (Z.div_mod h p ltac:(lia)) as DM. pose proof (Z.mod_pos_bound h p ltac:(lia)) as MB.
+  assert (0 <= h / p <= h) by (split; [apply Z.div_pos; lia | apply Z.div_le_upper_bound; nia]).
+  rewrite (Z.mod_small (h / p) (2 ^ 32)) by lia.
+  replace (h - h / p * p) with (h mod p) by lia.
+  apply Z.mod_small. lia.
+Qed.
+
 (* ---------------------------------------------------------------- ArenaVector *)
 Section VecProofs.
 Variable ok : nat -> bool.
@@ -696,6 +757,41 @@ Qed.
 
 End PoolProofs.
 
+
+Section PoolRunProofs.
+Variable ok : nat -> bool.
+
+Lemma pool_lookup_trees p p1 d : p_trees p1 = p_trees p -> pool_lookup p1 d = pool_lookup p d.
+Proof. intros E. unfold pool_lookup. rewrite E. reflexivity. Qed.
+
+(* whole scripts under any oracle: every constant whose add() reported success is found at the offset it was given, at the end
+   of the run, and whatever was in the pool before keeps its offset *)
+Theorem pool_run_offsets_stable ds : forall p k rs p' k',
+  length (p_trees p) = index_count ->
+  pool_run ok ds p k = (rs, p', k') ->
+  length (p_trees p') = index_count /\
+  (forall d0 o0, pool_lookup p d0 = Some o0 -> pool_lookup p' d0 = Some o0) /\
+  (forall i d off, nth_error ds i = Some d -> nth_error rs i = Some (Ok, Some off) -> pool_lookup p' d = Some off).
+Proof.
+  induction ds as [|d t IH]; intros p k rs p' k' L E; cbn [pool_run] in E.
+  - inversion E; subst. repeat split; auto. intros [|i] d off H; discriminate.
+  - destruct (pool_add ok d p k) as [[[r o] p1] k1] eqn:A.
+    destruct (pool_run ok t p1 k1) as [[rs2 p2] k2] eqn:R. inversion E; subst; clear E.
+    assert (L1 : length (p_trees p1) = index_count) by (rewrite (pool_add_keeps_tree_count ok d p k r o p1 k1 A); auto).
+    destruct (IH p1 k1 rs2 p' k' L1 R) as [LF [ST FN]].
+    assert (EXT : forall d0 o0, pool_lookup p d0 = Some o0 -> pool_lookup p1 d0 = Some o0).
+    { destruct r.
+      - destruct (pool_add_ok ok d p k o p1 k1 L A) as [off [_ [_ X]]]. intros d0 o0 H. eapply pool_lookup_ext; eauto.
+      - intros d0 o0 H. rewrite (pool_lookup_trees p p1); auto. eapply pool_add_failure_keeps_constants; eauto. discriminate.
+      - intros d0 o0 H. rewrite (pool_lookup_trees p p1); auto. eapply pool_add_failure_keeps_constants; eauto. discriminate. }
+    split; [auto|]. split; [intros; auto|].
+    intros [|i] d0 off Hd Hr; cbn in Hd, Hr.
+    + inversion Hd; inversion Hr; subst.
+      destruct (pool_add_ok ok d0 p k (Some off) p1 k1 L A) as [off' [EQ [LK _]]]. inversion EQ; subst. apply ST. auto.
+    + eapply FN; eauto.
+Qed.
+End PoolRunProofs.
+
 (* ---------------------------------------------------------------- CodeHolder *)
 Definition content : Type := (list label * list Z * Z)%type.
 Definition lbl_bound (ls : list label) (li : nat) : bool := l_bound (nth li ls (mklabel false [])).
@@ -875,6 +971,250 @@ Theorem pool_add_ok_not_failure_free_refuted :
   exists ok d p, let '(r, _, p', _) := pool_add ok d p 0 in let '(r0, _, p0, _) := pool_add all_ok d p 0 in
                  r = Ok /\ r0 = Ok /\ p_trees p' <> p_trees p0.
 Proof. exists (fun k => (k <? 1)%nat), [1; 2; 3; 4; 5; 6; 7; 8], pool_empty. vm_compute. repeat split; discriminate. Qed.
+
+(* ---------------------------------------------------------------- CodeHolder: sections, address table, call imm *)
+
+Definition scontent : Type := (list Z * list nat * option nat * list Z)%type.
+
+Definition new_section_spec (order : Z) (c : scontent) : scontent :=
+  let '(os, bo, at_, es) := c in (os ++ [order], insert_by_order os order (length os) bo, at_, es).
+
+(* the address-table section is created on first use *)
+Definition lazy_addrtab (c : scontent) : scontent :=
+  let '(os, bo, at_, es) := c in
+  match at_ with
+  | Some _ => c
+  | None => (os ++ [addrtab_order], insert_by_order os addrtab_order (length os) bo, Some (length os), es)
+  end.
+
+Definition add_address_spec (addr : Z) (c : scontent) : scontent :=
+  let '(os, bo, at_, es) := c in
+  if existsb (Z.eqb addr) es then c
+  else let '(os', bo', at', es') := lazy_addrtab c in (os', bo', at', es' ++ [addr]).
+
+Definition content2 : Type := (content * scontent)%type.
+Definition holder2_content (h : holder2) : content2 := (holder_content (h2_base h), sects_content (h2_sects h)).
+
+Definition holder2_spec (op : cop2) (c : content2) : option content2 :=
+  match op with
+  | CBase o => match holder_spec o (fst c) with Some b => Some (b, snd c) | None => None end
+  | CNewSection order => Some (fst c, new_section_spec order (snd c))
+  | CAddAddress a => Some (fst c, add_address_spec a (snd c))
+  | CCallAbs a => let '(ls, rs, un) := fst c in Some ((ls, rs ++ [6], un), add_address_spec a (snd c))
+  end.
+
+Section Holder2Proofs.
+Variable ok : nat -> bool.
+
+Lemma new_section_refines order s k r s' k' :
+  new_section ok order s k = (r, s', k') ->
+  (r = Ok /\ sects_content s' = new_section_spec order (sects_content s)) \/ (r = Oom /\ sects_content s' = sects_content s).
+Proof.
+  unfold new_section. pose proof (reserve_one_cases ok 8 (mkvec (ss_orders s) (ss_cap s)) k) as C1.
+  destruct (vec_reserve_one ok 8 (mkvec (ss_orders s) (ss_cap s)) k) as [[r1 v1] k1].
+  destruct C1 as [[-> _] | [-> _]]; [|intros E; inversion E; subst; auto].
+  cbn [ss_orders ss_cap ss_by_order ss_by_cap ss_addrtab ss_entries].
+  pose proof (reserve_one_cases ok 8 (mkvec (map Z.of_nat (ss_by_order s)) (ss_by_cap s)) k1) as C2.
+  destruct (vec_reserve_one ok 8 (mkvec (map Z.of_nat (ss_by_order s)) (ss_by_cap s)) k1) as [[r2 v2] k2].
+  destruct C2 as [[-> _] | [-> _]]; [|intros E; inversion E; subst; auto].
+  unfold request. destruct (ok k2); intros E; inversion E; subst; auto.
+Qed.
+
+Lemma add_address_refines addr s k r s' k' :
+  add_address ok addr s k = (r, s', k') ->
+  (r = Ok /\ sects_content s' = add_address_spec addr (sects_content s)) \/
+  (r = Oom /\ (sects_content s' = sects_content s \/ sects_content s' = lazy_addrtab (sects_content s))).
+Proof.
+  unfold add_address. unfold sects_content at 2 4 5. cbn [add_address_spec lazy_addrtab].
+  destruct (existsb (Z.eqb addr) (ss_entries s)) eqn:EX; [intros E; inversion E; subst; auto|].
+  destruct (ss_addrtab s) as [a|] eqn:AT.
+  - cbv beta iota zeta. unfold request. destruct (ok k); intros E; injection E as <- <- <-.
+    + left. unfold sects_content. cbn [ss_orders ss_by_order ss_addrtab ss_entries]. rewrite AT. auto.
+    + right. split; auto. left. unfold sects_content. rewrite AT. auto.
+  - destruct (new_section ok addrtab_order s k) as [[r1 s1] k1] eqn:NS.
+    destruct (new_section_refines _ _ _ _ _ _ NS) as [[-> C] | [-> C]].
+    + unfold sects_content in C. cbn [new_section_spec] in C. injection C as C1 C2 C3 C4.
+      cbv beta iota zeta. unfold request. destruct (ok k1); intros E; injection E as <- <- <-.
+      * left. unfold sects_content. cbn [ss_orders ss_by_order ss_addrtab ss_entries]. rewrite C1, C2, C4. auto.
+      * right. split; auto. right. unfold sects_content. cbn [ss_orders ss_by_order ss_addrtab ss_entries]. rewrite C1, C2, C4. unfold lazy_addrtab. rewrite AT. auto.
+    + cbv beta iota zeta. intros E; injection E as <- <- <-. right. split; auto. left. rewrite C. unfold sects_content. rewrite AT. auto.
+Qed.
+
+Lemma removelast_snoc2 {A} (l : list A) x y : removelast (l ++ [x]) ++ [y] = l ++ [y].
+Proof. rewrite removelast_last. reflexivity. Qed.
+
+Theorem holder2_step_refines op h k r h' k' :
+  holder2_step ok true op h k = (r, h', k') ->
+  match r with
+  | Ok => holder2_spec op (holder2_content h) = Some (holder2_content h')
+  | Oom => fst (holder2_content h') = fst (holder2_content h) /\
+           (snd (holder2_content h') = snd (holder2_content h) \/ snd (holder2_content h') = lazy_addrtab (snd (holder2_content h)))
+  | Invalid => holder2_content h' = holder2_content h /\ holder2_spec op (holder2_content h) = None
+  end.
+Proof.
+  destruct op as [o|order|addr|addr]; cbn [holder2_step]; intros E.
+  - destruct (holder_step ok true o (h2_base h) k) as [[r1 b] k1] eqn:S. inversion E; subst; clear E.
+    pose proof (holder_step_refines ok o (h2_base h) k _ _ _ S) as R. unfold holder2_content. cbn [h2_base h2_sects holder2_spec fst snd].
+    destruct r.
+    + rewrite R. auto.
+    + rewrite R. auto.
+    + destruct R as [R1 R2]. rewrite R1, R2. auto.
+  - destruct (new_section ok order (h2_sects h) k) as [[r1 s] k1] eqn:S. inversion E; subst; clear E.
+    unfold holder2_content. cbn [h2_base h2_sects holder2_spec fst snd].
+    destruct (new_section_refines _ _ _ _ _ _ S) as [[-> C] | [-> C]]; rewrite C; auto.
+  - destruct (add_address ok addr (h2_sects h) k) as [[r1 s] k1] eqn:S. inversion E; subst; clear E.
+    unfold holder2_content. cbn [h2_base h2_sects holder2_spec fst snd].
+    destruct (add_address_refines _ _ _ _ _ _ S) as [[-> C] | [-> [C|C]]]; rewrite C; auto.
+  - unfold call_abs in E.
+    destruct (new_reloc ok 5 (h2_base h) k) as [[r1 b1] k1] eqn:NR.
+    destruct (new_reloc_refines ok 5 (h2_base h) k r1 b1 k1 NR) as [[-> [C P]] | [-> [C P]]].
+    + destruct (add_address ok addr (h2_sects h) k1) as [[r2 s2] k2] eqn:AA.
+      unfold holder_content in C. injection C as CL CR CU.
+      destruct (add_address_refines _ _ _ _ _ _ AA) as [[-> CA] | [-> CA]]; inversion E; subst; clear E;
+        unfold holder2_content; cbn [h2_base h2_sects holder2_spec fst snd].
+      * unfold holder_content at 1. cbn [holder2_spec]. rewrite CA. unfold holder_content, set_last_reloc. cbn [ho_labels ho_relocs ho_unresolved].
+        rewrite CR, removelast_snoc2, CL, CU. auto.
+      * split.
+        -- unfold holder_content, pop_reloc. cbn [ho_labels ho_relocs ho_unresolved]. rewrite CR, removelast_last, CL, CU. auto.
+        -- destruct CA as [CA|CA]; rewrite CA; auto.
+    + inversion E; subst; clear E. unfold holder2_content. cbn [h2_base h2_sects fst snd]. auto.
+Qed.
+
+Fixpoint holder2_replay (ops : list cop2) (rs : list result) (c : content2) : list content2 :=
+  match ops, rs with
+  | op :: ops', r :: rs' =>
+      match r with
+      | Ok => match holder2_spec op c with Some c' => holder2_replay ops' rs' c' | None => [] end
+      | Oom => holder2_replay ops' rs' c ++ holder2_replay ops' rs' (fst c, lazy_addrtab (snd c))
+      | Invalid => holder2_replay ops' rs' c
+      end
+  | _, _ => [c]
+  end.
+
+(* run level: the final content is one of the results of replaying exactly the successful operations with the oracle-free
+   specification, where a failed operation may at most have created the (empty) address-table section early *)
+Theorem holder2_run_failed_ops_vanish ops : forall h k rs h' k',
+  holder2_run ok true ops h k = (rs, h', k') ->
+  In (holder2_content h') (holder2_replay ops rs (holder2_content h)) /\ length rs = length ops.
+Proof.
+  induction ops as [|op t IH]; intros h k rs h' k' E; cbn [holder2_run] in E.
+  - inversion E; subst. cbn. auto.
+  - destruct (holder2_step ok true op h k) as [[r h1] k1] eqn:S1.
+    destruct (holder2_run ok true t h1 k1) as [[rs2 h2] k2] eqn:S2. inversion E; subst; clear E.
+    pose proof (holder2_step_refines op h k r h1 k1 S1) as R. destruct (IH h1 k1 rs2 h' k' S2) as [A B].
+    split; [|cbn; lia]. cbn [holder2_replay]. destruct r.
+    + rewrite R. auto.
+    + destruct R as [R1 [R2|R2]]; apply in_or_app; [left|right].
+      * replace (holder2_content h) with (holder2_content h1); auto. destruct (holder2_content h1), (holder2_content h). cbn in *. congruence.
+      * replace (fst (holder2_content h), lazy_addrtab (snd (holder2_content h))) with (holder2_content h1); auto.
+        destruct (holder2_content h1). cbn in *. congruence.
+    + destruct R as [R _]. rewrite <- R. auto.
+Qed.
+
+End Holder2Proofs.
+
+(* pinned behaviour of x86 jmp/call imm (before C15-stale-reloc): the relocation stays when the address table fails *)
+Theorem call_abs_pinned_refuted :
+  exists ok h, let '(r, h', _) := holder2_step ok false (CCallAbs 4096) h 0 in
+               r = Oom /\ fst (holder2_content h') <> fst (holder2_content h).
+Proof. exists (fun k => (k <? 2)%nat), holder2_init. vm_compute. split; [reflexivity | discriminate]. Qed.
+
+(* a failed add_address_to_address_table may leave the (empty) .addrtab section behind: not atomic in the section list *)
+Theorem add_address_lazy_section_refuted :
+  exists ok h, let '(r, h', _) := holder2_step ok true (CAddAddress 4096) h 0 in
+               r = Oom /\ snd (holder2_content h') <> snd (holder2_content h) /\ snd (holder2_content h') = lazy_addrtab (snd (holder2_content h)).
+Proof. exists (fun k => (k <? 1)%nat), holder2_init. vm_compute. repeat split; discriminate. Qed.
+
+(* ---------------------------------------------------------------- BaseBuilder node creation *)
+
+Definition blist : Type := (list (nat * list bnode) * nat * list nat)%type.
+
+Definition bld_spec (op : bop) (c : blist) : blist :=
+  let '(secs, cur, act) := c in
+  match op with
+  | BNewLabel => c
+  | BBind li => (append_to cur (NLabel li) secs, cur, li :: act)
+  | BSection sid => (if existsb (fun p => (fst p =? sid)%nat) secs then secs else secs ++ [(sid, [])], sid, act)
+  | BInst => (append_to cur NInst secs, cur, act)
+  end.
+
+Lemma nth_pad_to n l i : nth i (pad_to n l) false = nth i l false.
+Proof.
+  unfold pad_to. destruct (lt_dec i (length l)).
+  - rewrite app_nth1; auto.
+  - rewrite app_nth2 by lia. rewrite (nth_overflow l) by lia. apply nth_repeat.
+Qed.
+
+Section BuilderProofs.
+Variable ok : nat -> bool.
+
+Lemma reserve_grow_cases isz v n k :
+  let '(r, v1, k1) := vec_reserve_grow ok isz v n k in (r = Ok /\ v_items v1 = v_items v) \/ (r = Oom /\ v1 = v).
+Proof.
+  unfold vec_reserve_grow, vec_reserve_bytes, request.
+  repeat match goal with |- context [if ?c then _ else _] => destruct c end; cbn; auto.
+Qed.
+
+Lemma reserve_additional_cases isz v n k :
+  let '(r, v1, k1) := vec_reserve_additional ok isz v n k in (r = Ok /\ v_items v1 = v_items v) \/ (r = Oom /\ v1 = v).
+Proof.
+  unfold vec_reserve_additional. destruct (n <=? v_cap v - vsize v); [cbn; auto|]. apply reserve_grow_cases.
+Qed.
+
+Definition same_nodes (l l' : list bool) : Prop := forall i, nth i l' false = nth i l false.
+
+Ltac split_ifs H :=
+  repeat match type of H with
+         | context [if ?c then _ else _] => destruct c eqn:?
+         | context [match ho_fixup_pool ?h with _ => _ end] => destruct (ho_fixup_pool h)
+         end.
+
+Ltac fin_nodes :=
+  unfold same_nodes, bld_list, set_nth_true; cbn [b_secs b_cur b_active b_lnodes b_snodes];
+  repeat split; auto; intros; try congruence; rewrite ?nth_pad_to; auto;
+  cbn [bld_spec b_secs b_cur b_active b_lnodes b_snodes] in *;
+  repeat match goal with H : existsb _ _ = _ |- _ => rewrite H end; auto.
+
+Theorem builder_step_atomic op h b k r h' b' k' :
+  builder_step ok op h b k = (r, h', b', k') ->
+  (r <> Ok ->
+     bld_list b' = bld_list b /\ h2_sects h' = h2_sects h /\
+     (holder_content (h2_base h') = holder_content (h2_base h) \/
+      (op = BNewLabel /\ holder_content (h2_base h') = (ho_labels (h2_base h) ++ [mklabel false []], ho_relocs (h2_base h), ho_unresolved (h2_base h))))) /\
+  (r = Oom -> same_nodes (b_lnodes b) (b_lnodes b') /\ same_nodes (b_snodes b) (b_snodes b')) /\
+  (r = Ok ->
+     bld_list b' = bld_spec op (bld_list b) /\ h2_sects h' = h2_sects h /\
+     match op with
+     | BNewLabel => holder_content (h2_base h') = (ho_labels (h2_base h) ++ [mklabel false []], ho_relocs (h2_base h), ho_unresolved (h2_base h))
+     | _ => h' = h
+     end).
+Proof.
+  destruct op as [|li|sid|]; cbn [builder_step]; intros E.
+  - unfold b_new_label in E.
+    destruct (new_label ok (h2_base h) k) as [[r1 base1] k1] eqn:NL.
+    destruct (new_label_refines ok (h2_base h) k r1 base1 k1 NL) as [[-> C] | [-> C]].
+    + set (grow_by := (length (ho_labels (h2_base h)) - length (b_lnodes b) + 1)%nat) in *.
+      pose proof (reserve_additional_cases 8 (bools_vec (b_lnodes b) (b_lcap b)) (Z.of_nat grow_by) k1) as RC.
+      destruct (vec_reserve_additional ok 8 (bools_vec (b_lnodes b) (b_lcap b)) (Z.of_nat grow_by) k1) as [[r2 v2] k2].
+      destruct RC as [[-> _] | [-> _]].
+      * unfold request in E. destruct (ok k2); inversion E; subst; clear E; cbn [h2_base h2_sects];
+          (split; [intros; try congruence; fin_nodes | split; [intros; try congruence; fin_nodes | intros; try congruence; fin_nodes]]).
+      * inversion E; subst; clear E. cbn [h2_base h2_sects]. split; [intros; fin_nodes | split; [intros; fin_nodes | congruence]].
+    + inversion E; subst; clear E. cbn [h2_base h2_sects]. split; [intros; fin_nodes | split; [intros; fin_nodes | congruence]].
+  - destruct (b_bind ok li h b k) as [[r1 b1] k1] eqn:BB. inversion E; subst; clear E.
+    unfold b_bind, vec_reserve_grow, vec_reserve_bytes, request in BB.
+    split_ifs BB; inversion BB; subst; clear BB;
+      (split; [intros; try congruence; fin_nodes | split; [intros; try congruence; fin_nodes | intros; try congruence; fin_nodes]]).
+  - destruct (b_section ok sid h b k) as [[r1 b1] k1] eqn:BB. inversion E; subst; clear E.
+    unfold b_section, vec_reserve_grow, vec_reserve_bytes, request in BB.
+    split_ifs BB; inversion BB; subst; clear BB;
+      (split; [intros; try congruence; fin_nodes | split; [intros; try congruence; fin_nodes | intros; try congruence; fin_nodes]]).
+  - destruct (b_inst ok b k) as [[r1 b1] k1] eqn:BI. inversion E; subst; clear E.
+    unfold b_inst, request in BI. destruct (ok k); inversion BI; subst;
+      (split; [intros; try congruence; fin_nodes | split; [intros; try congruence; fin_nodes | intros; try congruence; fin_nodes]]).
+Qed.
+
+End BuilderProofs.
 
 Lemma primes_pos_of_forallb l : forallb (fun p => 0 <? p) l = true -> Forall (fun p => 0 < p) l.
 Proof.
